@@ -10,21 +10,22 @@ from cnvlib import reference, descriptives, params
 PROPERTY = "C05"
 FUNCTIONS = [
     "cnvlib.reference.combine_probes/load_sample_block/bias_correct_logr/shift_sex_chroms/summarize_info (corrections off)",
-    "cnvlib.reference.do_reference (sexes given), calculate_gc_lo, fasta_extract_regions, get_fasta_stats",
+    "cnvlib.reference.do_reference/infer_sexes (sexes given; inferred: guess_xx's answer is solver-chosen), summarize_info with the real descriptives.biweight_location/biweight_midvariance (structured family), calculate_gc_lo, fasta_extract_regions, get_fasta_stats",
     "cnvlib.cnary.CopyNumArray.center_all/expect_flat_log2/chr_x_filter/chr_y_filter",
 ]
 BOUNDS = {
-    "cohort": "1-2 samples (3 thorough) x every sex mix x male/female reference x chrN/N naming; 4 target bins (2 autosomal on two chromosomes, X, Y) and 0 or 2 antitarget bins, every log2 symbolic in [-10, 10] (no null coverage)",
+    "cohort": "1-2 samples (3 thorough) x every sex mix x male/female reference x chrN/N naming; 4 target bins (2 autosomal on two chromosomes, X, Y) and 0 or 2 antitarget bins, every log2 symbolic in [-10, 10] (no null coverage; one configuration with antitarget log2 down to -25: null-coverage antitarget bins); inferred sexes: 2 samples x {female, male, no call} per file; consensus: 2-3 samples, one outlier with |log2| in [1, 10]",
     "sequences": "symbolic sequences of <= 6 characters over ACGTacgtNn for gc/rmask; symbolic slice coordinates",
 }
 NOT_COVERED = [
     "the numerics of biweight_location / biweight_midvariance: they are spies returning fresh values, what is decided is the exact vector each bin hands to them (their own invariants: C19)",
-    "corrections on (the semantic clauses under rolling-median corrections), sex inference (guess_xx: scipy median_test), clustering",
+    "corrections on (the semantic clauses under rolling-median corrections), the sex inference itself (guess_xx: scipy median_test; its answer is solver-chosen), clustering",
     "cohorts of more than 3 samples",
 ]
 STUBS = [
     "reference.read_cna returns the harness's in-memory arrays (file parsing: C08)",
-    "descriptives.biweight_location / biweight_midvariance -> spies (argument vectors recorded) returning fresh values",
+    "descriptives.biweight_location / biweight_midvariance -> spies (argument vectors recorded) returning fresh values (pooled harness; consensus_outlier runs the real ones)",
+    "CopyNumArray.guess_xx -> solver-chosen answer in {female, male, no call} per file; combine_probes -> recorder (inferred_sexes harness only)",
     "pyfaidx.Fasta -> object recording the requested slice and returning a symbolic sequence",
 ]
 ASSUMPTIONS = []
@@ -51,14 +52,16 @@ class Spy:
         return self.ctx.real(f"{self.name}{len(self.calls)}", self.lo, None)
 
 
-def h_pool(ctx, sexes, hapx, naming, with_anti, mismatch=False):
-    """sexes: list of 'F'/'M' per sample."""
+def h_pool(ctx, sexes, hapx, naming, with_anti, mismatch=False, anti_lo=-10):
+    """sexes: list of 'F'/'M' per sample.  anti_lo: lower end of the antitarget log2 range (below
+    -15 a bin counts as null coverage: antitarget files are centred over all their autosomal bins,
+    zero-coverage ones included -- 'each sample's log2 after median-centring')."""
     tb, ab = bins_for(naming, with_anti)
     ns = len(sexes)
     tables, samp_logs = {}, []
     for k, sx in enumerate(sexes):
         tl = [ctx.real(f"t{k}_{i}", -10, 10) for i in range(len(tb))]
-        al = [ctx.real(f"a{k}_{i}", -10, 10) for i in range(len(ab))]
+        al = [ctx.real(f"a{k}_{i}", anti_lo, 10) for i in range(len(ab))]
         samp_logs.append((tl, al))
         tbk = list(tb)
         if mismatch and k == ns - 1:
@@ -135,6 +138,93 @@ def h_pool(ctx, sexes, hapx, naming, with_anti, mismatch=False):
         ctx.claim(len(gv) == len(want) and all(bool(approx(g, w)) for g, w in zip(gv, want)), "the spread estimator receives the same values")
     # the reported log2/spread are the estimators' results for that bin
     ctx.cover("mixed sexes", len(set(sexes)) > 1)
+    if anti_lo < -15:
+        ctx.cover("null-coverage antitarget bin", Or(*[a < params.NULL_LOG2_COVERAGE - params.MIN_REF_COVERAGE for _, al in samp_logs for a in al]))
+    ctx.cover("reached")
+
+
+def h_infer(ctx, with_anti, empty_anti=False):
+    """do_reference with the sexes left to be inferred.  The inference itself (guess_xx: scipy's
+    median test) is replaced by a solver-chosen answer per file -- female, male, or no call --
+    what is decided is the bookkeeping around it: every non-empty file is asked once, and each
+    sample is handed to combine_probes with the antitarget call where there is one, else the
+    target call, else none (reference.py: 'infer from [targets] first, then replace those values
+    where antitargets are suitable')."""
+    from cnvlib.cnary import CopyNumArray as CNA
+
+    ns = 2
+    tb, ab = bins_for("chr", True)
+    tables = {}
+    for k in range(ns):
+        tables[f"s{k}.targetcoverage.cnn"] = make_cna({"chromosome": [b[0] for b in tb], "start": [b[1] for b in tb], "end": [b[2] for b in tb], "gene": [b[3] for b in tb], "log2": [0.0] * len(tb), "depth": [10.0] * len(tb)}, {"sample_id": f"s{k}"})
+        abk = [] if (empty_anti and k == 0) else ab
+        tables[f"s{k}.antitargetcoverage.cnn"] = make_cna({"chromosome": [b[0] for b in abk], "start": [b[1] for b in abk], "end": [b[2] for b in abk], "gene": [b[3] for b in abk], "log2": [0.0] * len(abk), "depth": [1.0] * len(abk)}, {"sample_id": f"s{k}"})
+    answers, asked = {}, []
+    OPTS = [None, True, False]
+
+    def spy(self, is_haploid_x_reference=False, diploid_parx_genome=None, verbose=True):
+        key = (self.sample_id, "anti" if len(self) and self.data["gene"].iat[0] == "Antitarget" else "tgt")
+        asked.append(key)
+        if key not in answers:
+            answers[key] = OPTS[ctx.choice(f"guess_{key[0]}_{key[1]}", [0, 1, 2])]
+        return answers[key]
+
+    got = {}
+
+    def fake_combine(filenames, antitarget_fnames, fa_fname, is_haploid_x, diploid_parx_genome, sexes, *a, **k):
+        got["sexes"] = dict(sexes)
+        got["anti"] = antitarget_fnames
+        return make_cna({"chromosome": ["chr1"], "start": [1], "end": [2], "gene": ["g"], "log2": [0.0], "depth": [1.0], "spread": [0.1]}, {"sample_id": "ref"})
+
+    real_guess, real_read, real_combine, real_warn = CNA.guess_xx, reference.read_cna, reference.combine_probes, reference.warn_bad_bins
+    CNA.guess_xx = spy
+    reference.read_cna = lambda fname, *a, **k: tables[fname].copy()
+    reference.combine_probes = fake_combine
+    reference.warn_bad_bins = lambda *a, **k: None
+    try:
+        reference.do_reference([f"s{k}.targetcoverage.cnn" for k in range(ns)], [f"s{k}.antitargetcoverage.cnn" for k in range(ns)] if with_anti else None, None, False, None, None, False, False, False)
+    except Exception as exc:
+        ctx.claim(False, f"do_reference raised {type(exc).__name__}", info=str(exc)[:200])
+        return
+    finally:
+        CNA.guess_xx, reference.read_cna, reference.combine_probes, reference.warn_bad_bins = real_guess, real_read, real_combine, real_warn
+    files = [(f"s{k}", "tgt") for k in range(ns)] + ([(f"s{k}", "anti") for k in range(ns) if not (empty_anti and k == 0)] if with_anti else [])
+    ctx.claim(sorted(asked) == sorted(files), "every non-empty coverage file is asked for its sex exactly once")
+    want = {}
+    for k in range(ns):
+        sid = f"s{k}"
+        a = answers.get((sid, "anti")) if with_anti else None
+        t = answers.get((sid, "tgt"))
+        v = a if a is not None else t
+        if v is not None:
+            want[sid] = v
+    ctx.observe("sexes", {k: bool(v) for k, v in sorted(got.get("sexes", {}).items())})
+    ctx.claim({k: v for k, v in got.get("sexes", {}).items() if v is not None} == want, "each sample's sex is the antitarget call where there is one, else the target call, else none")
+    ctx.cover("antitarget call only", any(answers.get((f"s{k}", "tgt")) is None and answers.get((f"s{k}", "anti")) is not None for k in range(ns)))
+    ctx.cover("calls disagree", any(answers.get((f"s{k}", "tgt")) is not None and answers.get((f"s{k}", "anti")) is not None and answers.get((f"s{k}", "tgt")) != answers.get((f"s{k}", "anti")) for k in range(ns)))
+    ctx.cover("reached")
+
+
+def h_consensus(ctx, n, side):
+    """summarize_info with the real estimators on one structured family where the degree stays low
+    enough for the solver (as in C19): in a bin where every sample agrees with the neutral
+    pseudo-sample except one that lies far away, Tukey's biweight discards the outlier -- log2 is
+    the common value and spread 0, on either side."""
+    y = ctx.real("y", -10, 10)
+    ctx.assume(y <= -1 if side == "low" else y >= 1)
+    pos = ctx.choice("row", list(range(1, n)))
+    col0 = [0.0] * n
+    col0[pos] = y
+    logr = np.empty((n, 2), dtype=object)
+    for i in range(n):
+        logr[i, 0] = col0[i]
+        logr[i, 1] = 0.0
+    depths = np.ones((n, 2), dtype=float)
+    out = reference.summarize_info(logr, depths)
+    l2, sp = out["log2"][0], out["spread"][0]
+    ctx.observe("log2", l2)
+    ctx.claim(approx(l2, 0), "the consensus log2 discards a far outlier (Tukey's biweight location)")
+    ctx.claim(approx(sp, 0), "the spread discards a far outlier, low or high (Tukey's biweight midvariance)")
     ctx.cover("reached")
 
 
@@ -226,11 +316,15 @@ def _pool_cfgs():
                         c["tier"] = "thorough"
                     out.append(c)
     out.append({"sexes": ["F", "M"], "hapx": True, "naming": "chr", "with_anti": False, "mismatch": True})
+    out.append({"sexes": ["F"], "hapx": False, "naming": "chr", "with_anti": True, "anti_lo": -25})
+    out.append({"sexes": ["M", "F"], "hapx": True, "naming": "chr", "with_anti": True, "anti_lo": -25, "tier": "thorough"})
     return out
 
 
 HARNESSES = [
-    Harness("pooled", h_pool, _pool_cfgs(), covers=["reached", "mixed sexes", "rejected"], wall_s=400, thorough_wall_s=1800),
+    Harness("pooled", h_pool, _pool_cfgs(), covers=["reached", "mixed sexes", "rejected", "null-coverage antitarget bin"], wall_s=400, thorough_wall_s=1800),
+    Harness("inferred_sexes", h_infer, [{"with_anti": True}, {"with_anti": False}, {"with_anti": True, "empty_anti": True}], covers=["reached", "antitarget call only", "calls disagree"], wall_s=300),
+    Harness("consensus_outlier", h_consensus, [{"n": n, "side": sd} for n in (3, 4) for sd in ("low", "high")], covers=["reached"], wall_s=300, query_timeout_ms=60000),
     Harness("gc_rmask", h_gc, [{"L": 0}, {"L": 1}, {"L": 3}, {"L": 4}, {"L": 6, "tier": "thorough"}], covers=["all ambiguous", "mixed case"], wall_s=200, thorough_wall_s=900),
     Harness("fasta_slice", h_slice, [{}], covers=["reached"]),
 ]
